@@ -57,6 +57,15 @@ fn print_result(r: &RunResult) {
 
 fn main() {
     util::install_panic_hook();
+    // a panic of the machinery itself is exit 2, never a verdict
+    let r = std::panic::catch_unwind(real_main);
+    if r.is_err() {
+        eprintln!("machinery: internal panic");
+        std::process::exit(2);
+    }
+}
+
+fn real_main() {
     let args: Vec<String> = std::env::args().collect();
     known::load("/verif/known_findings.json");
     let cmd = args.get(1).map(|s| s.as_str()).unwrap_or("");
